@@ -182,6 +182,13 @@ def audit_assumptions(pid):
 
 def coqchk(pid):
     rc, out = sh(["coqchk", "-silent", "-o", "-Q", COQ, "HecsV", "HecsV.Properties." + pid], cwd=COQ, timeout=3000)
+    if rc == 0:
+        # the context summary must report no axioms and no assumed/unsafe constructions in the whole closure
+        flat = " ".join(out.split())
+        for key in ("* Axioms: <none>", "relying on type-in-type: <none>", "relying on unsafe (co)fixpoints: <none>",
+                    "positivity is assumed: <none>", "Set is predicative"):
+            if key not in flat:
+                return 1, out + "\ncoqchk context summary lacks: " + key
     return rc, out
 
 
@@ -260,11 +267,25 @@ def load_known():
     return json.load(open(p)).get("findings", [])
 
 
-def match_known(pid, message):
-    for k in load_known():
-        if k.get("status") == "known" and k.get("property") == pid and re.search(k["match"], message):
-            return k
-    return None
+def match_known(pid, message, also=()):
+    """a verdict line may carry several verdicts joined by ' | ': it is a known finding only if EVERY part matches
+    a known entry of this property (or of a property in `also`, whose findings this check can observe but
+    does not own: those parts are dropped); returns the known entry, or None when some part is not known"""
+    parts = [x for x in message.split(" | ") if x.strip()]
+    hit = None
+    for part in parts:
+        k = None
+        for e in load_known():
+            if e.get("status") == "known" and re.search(e["match"], part):
+                if e.get("property") == pid:
+                    k = e
+                elif e.get("property") in also:
+                    k = {"foreign": True, "text": e["text"], "property": e["property"]}
+        if k is None:
+            return None
+        if hit is None or not k.get("foreign"):
+            hit = k
+    return hit
 
 
 # ----------------------------------------------------------------------------- evidence
